@@ -29,6 +29,14 @@ def n(tier, q, t):
     return q if tier == "quick" else t
 
 
+def with_want(scens, want):
+    for _, ops in scens:
+        for o in ops:
+            if o.get("op") == "parse":
+                o["want"] = want
+    return scens
+
+
 def fam_general(rng, tier):
     return (gen.fam_fixed(rng, n(tier, 60, 400)) + gen.fam_stream(rng, n(tier, 150, 1500)) + gen.fam_garbage(rng, n(tier, 80, 600)))
 
@@ -102,6 +110,10 @@ PROPS = {
             "rule": "random subsets S of {5,7,9,10} plus extra numbers against an every-version-allowed parser on the same buffer/history, and against an every-version-allowed parser fed the allowed prefix only"},
     "C13": {"oracle": "C13", "view": ["outcome", "pkts", "common"], "families": fam_c13,
             "rule": "V5/V7 packets and V9/IPFIX streams whose templates are built from the projected fields (any subset/order, IPv4/IPv6), several records and sets; flat helper on a twin parser"},
+    "C15": {"oracle": "C15", "view": ["outcome", "pkts"], "want_override": ["alloc"],
+            "families": lambda rng, tier: with_want(gen.fam_extremal(rng, tier) + fam_general(rng, tier) + gen.fam_redefine(rng, n(tier, 40, 300)), ["alloc"]),
+            "mutate_per": {"quick": 1, "thorough": 3},
+            "rule": "heap bytes requested from a counting global allocator during parse_bytes (measured in the harness) against A*|buf| + B*size(result) + C with A=64, B=16, C=128 KiB, and size(result) against D*(|buf| + wire size of cached templates) + E with D=256, E=1 KiB (sizes defined in lean/NetflowModel/Cost.lean); extremal families: headers announcing 65535 records/fields over short bodies, buffers packed with minimal packets, maximal record counts, templates with many (zero-length) fields"},
     "C16": {"oracle": "C16", "view": ["outcome", "pkts"],
             "families": lambda rng, tier: gen.fam_json(rng, n(tier, 200, 2000)) + gen.fam_garbage(rng, n(tier, 60, 400)) + gen.fam_fixed(rng, n(tier, 30, 200)),
             "mutate_per": {"quick": 1, "thorough": 2},
